@@ -180,7 +180,8 @@ REGISTRY = {"C07": c07}
 # ---------------------------------------------------------------------------------------------
 # C06: diagnostics name the true source location
 # ---------------------------------------------------------------------------------------------
-HFILES = {"h3.h": "char h3a;\nchar h3b;\nchar h3c;\n", "h2x.h": "char h2a;\nchar h2b;", "a.inc": "; assembler\n\tNOP\n"}
+HFILES = {"h3.h": "char h3a;\nchar h3b;\nchar h3c;\n", "h2x.h": "char h2a;\nchar h2b;", "a.inc": "; assembler\n\tNOP\n",
+          "hg.h": "#ifndef HG_H\n#define HG_H\nchar hga;\n#endif", "hc.h": "char hca;\n// no newline after this comment"}
 
 
 def render_prefix_item(it, i):
@@ -220,6 +221,10 @@ def render_prefix_item(it, i):
         return ['#include "h2x.h"']
     if k == "incasm":
         return ['#include "a.inc"']
+    if k == "inc_guard":
+        return ['#include "hg.h"']
+    if k == "inc_cmt":
+        return ['#include "hc.h"']
     raise ValueError(k)
 
 
@@ -269,7 +274,7 @@ def render_loc(c):
     seen_inc = set()
     for i, it in enumerate(c["prefix"], 1):
         ls = render_prefix_item(it, i)
-        if it["k"] in ("inc3n", "inc2x"):
+        if it["k"] in ("inc3n", "inc2x", "inc_cmt"):
             # a C header may be included once only (its declarations would clash): later ones become blank lines
             if it["k"] in seen_inc:
                 ls = [""]
@@ -298,8 +303,8 @@ def c06(tier):
     verdict = common.Verdict(pid)
     d = common.workdir("gen_c06")
     cfg = os.path.join(d, "GenLoc.cfg")
-    maxp = 3 if tier == "quick" else 4
-    open(cfg, "w").write("SPECIFICATION Spec\nCONSTANTS MaxPrefix = %d\nINVARIANT Emit\nCHECK_DEADLOCK FALSE\n" % maxp)
+    maxp, full, mod = (3, 2, 16) if tier == "quick" else (3, 2, 3)
+    open(cfg, "w").write("SPECIFICATION Spec\nCONSTANTS MaxPrefix = %d\n FullLen = %d\n EmitMod = %d\nINVARIANT Emit\nCHECK_DEADLOCK FALSE\n" % (maxp, full, mod))
     res = common.run_tlc("GenLoc", cfg=cfg, name="gen_c06", tags={"CASE"}, workers=8, heap="8g", timeout=1500)
     common.require_ok(res, "GenLoc")
     cases = [o for (_, o) in res.lines]
@@ -388,6 +393,8 @@ def render_lit(c):
         return pro + 'const char *v0 = "%s" "Zz";\nvoid main() { }\n' % raw
     if k == "callarg":
         return pro + 'void pr(char *s) { }\nvoid main() { pr("%s"); }\n' % raw
+    if k == "twocalls":      # two literals in different nested sub-expressions of one statement: both must be stored
+        return pro + 'char r0;\nchar g0(char *s) { return s[0]; }\nchar f0(char *s) { return s[1]; }\nvoid main() { r0 = g0("%s") + f0("Zq"); }\n' % raw
     if k == "asm":
         return pro + 'void main() { asm("%s", 3); }\n' % raw
     if k == "twoline":
@@ -432,6 +439,12 @@ def observe_lit(c, o):
     if k == "callarg":
         lits = [v for v in vs if v["name"].startswith("cctmp") and v["def"] and "array" in v["def"]]
         return [e.get("int") for e in lits[0]["def"]["array"]] if len(lits) == 1 else ["literal count", len(lits)]
+    if k == "twocalls":
+        lits = [[e.get("int") for e in v["def"]["array"]] for v in vs if v["name"].startswith("cctmp") and v["def"] and "array" in v["def"]]
+        if len(lits) != 2 or [90, 113, 0] not in lits:
+            return ["literals stored", lits]
+        lits.remove([90, 113, 0])
+        return lits[0]
     if k == "asm":
         for f in o["funcs"]:
             if f["name"] == "main":
@@ -541,7 +554,9 @@ def join_tokens(ts, tight):
     return out
 
 
-def render_macro(c, tight):
+def render_macro(c, tight, defsplice=False):
+    """defsplice: a backslash-newline between the name of a function-like macro and its parameter list, and inside bodies
+    (removed before the directive is read: the definition is the same)"""
     lines, defines = [], []
     for i in range(c["filler"]):
         lines.append("#define FILL%d %d" % (i, i))
@@ -553,6 +568,8 @@ def render_macro(c, tight):
         body = join_tokens(d["body"], False)
         if first and c["origin"] == "cmdline" and not d["fn"]:
             defines.append("%s=%s" % (d["name"], body))
+        elif d["fn"] and defsplice:
+            lines.append("#define %s\\\n(%s) \\\n%s" % (d["name"], ", ".join(d["params"]), body.replace(" ", " \\\n", 1)))
         elif d["fn"]:
             lines.append("#define %s(%s) %s" % (d["name"], ", ".join(d["params"]), body))
         else:
@@ -594,6 +611,10 @@ def c08(tier):
             src, defines = render_macro(c, tight)
             hc.append(dict(id=len(hc), src=src, file="main.c", defines=defines, query=["N", "F", "xx"]))
             meta.append((c, tight, src, defines))
+        if i % 25 == 7 and any(dd.get("fn") for dd in c["dirs"] if dd["k"] == "define"):
+            src, defines = render_macro(c, True, defsplice=True)
+            hc.append(dict(id=len(hc), src=src, file="main.c", defines=defines, query=["N", "F", "xx"]))
+            meta.append((c, "defsplice", src, defines))
     obs = common.run_harness("cpp", hc, "c08", deadline_ms=4000)
     kf = {}
     for fd in verdict.findings:
